@@ -4,8 +4,8 @@ import glob, json, os, re, time
 import vlib
 
 TARGETS = ["Base/Num.vo", "C14/ER.vo", "C14/Model.vo", "C14/Spec.vo", "C14/ProofsER.vo", "C14/Corr.vo",
-           "C14/ProofsCont.vo", "C14/ProofsDisc.vo", "C14/ProofsNorm.vo", "C14/ProofsCdf.vo",
-           "C14/ProofsRefuted.vo", "C14/Props.vo"]
+           "C14/ProofsCont.vo", "C14/ProofsDisc.vo", "C14/ProofsNorm.vo", "C14/ProofsCdf.vo", "C14/ProofsCdf2.vo",
+           "C14/ProofsRegress.vo", "C14/Props.vo"]
 PROPS = ["C14/Props.v"]
 PARTIAL = ("Theorems are over exact real arithmetic extended by +Inf/-Inf/NaN (coq/C14/ER.v); rounding, overflow and "
            "signed zeros of binary64 are not modelled; the step to binary64 is bounded per sampled case by the "
@@ -122,7 +122,7 @@ def run(ctx):
         closed = sum(1 for v in pa.values() if v.startswith("Closed"))
         ctx.cov["print_assumptions"] = {
             "theorems": len(pa), "closed_under_global_context": closed, "axioms_used": names,
-            "note": "formula/support/ctor/norm/cdf theorems: standard Reals + classical axioms only; the *_refuted "
+            "note": "formula/support/ctor/norm/cdf theorems: standard Reals + classical axioms only; the *_regress "
                     "lemmas are proved with Coq-Interval and additionally list its primitive int63/float axioms"}
     binary, blog = vlib.build_harness("c14")
     if binary is None:
